@@ -25,6 +25,35 @@ func vSlogSite(lg *slog.Logger, lvl slog.Level) (file string, line int, fn strin
 	return
 }
 
+// vSlogWrapped logs through one helper frame; the handler is configured with WithCallerSkip(1) for it.
+func vSlogWrapped(lg *slog.Logger) (fn string) {
+	pc, _, _, _ := runtime.Caller(0); vSlogHelper(lg)
+	return runtime.FuncForPC(pc).Name()
+}
+
+func vSlogHelper(lg *slog.Logger) { lg.Error("m") }
+
+//verif: prop=C15 bounds="slog handler built with WithCallerSkip(1) and used behind one helper function, plain or derived by WithGroup / WithAttrs: the stack trace of an Error record starts at the helper's caller and does not contain the helper"
+func VC15SlogSkip() {
+	core := vNewRecCore(zapcore.DebugLevel)
+	var h slog.Handler = NewHandler(core, WithCaller(true), WithCallerSkip(1), AddStacktraceAt(slog.LevelError))
+	switch vrt.Choice("derive", 3) {
+	case 1:
+		h = h.WithGroup("g")
+	case 2:
+		h = h.WithAttrs([]slog.Attr{slog.Int("a", 1)})
+	}
+	fn := vSlogWrapped(slog.New(h))
+	if len(*core.writes) != 1 {
+		vrt.Fail("one-entry")
+		return
+	}
+	e := (*core.writes)[0].ent
+	vrt.Observe("stack-starts-at-site", strings.HasPrefix(e.Stack, fn+"\n"))
+	vrt.Assert("stack-shifted-outward-by-the-configured-skip", strings.HasPrefix(e.Stack, fn+"\n"))
+	vrt.Assert("skipped-helper-not-in-the-stack", !strings.Contains(e.Stack, "zapslog.vSlogHelper"))
+}
+
 //verif: prop=C15 bounds="slog handler with WithCaller on/off, after 0..1 WithGroup/WithAttrs derivation, record level in {Info, Error}: the caller is the call site slog recorded (the record's PC), defined exactly when caller annotation is on; a stack is attached exactly from the configured slog level up; modelled runtime"
 func VC15Slog() {
 	core := vNewRecCore(zapcore.DebugLevel)
